@@ -34,6 +34,7 @@ namespace awkward {
       .append(content_.get()->vm_func_name()).append("\n")
       .append(";").append("\n");
 
+    vm_data_from_stack_ = content_.get()->vm_from_stack();
     vm_error_.append(content_.get()->vm_error());
   }
 
